@@ -110,9 +110,8 @@ Final == /\ l <= Len(Trace) /\ Ev.t = "final"
          /\ pend = <<>>
          /\ \A i \in 1..Len(Ev.objs) :
               LET o == Ev.objs[i] IN
-              /\ HasB(st, o.b)
-              /\ IF o.present THEN Live(Stack(st, o.b, o.k)) /\ Cur(Stack(st, o.b, o.k)).body = o.body
-                 ELSE ~Live(Stack(st, o.b, o.k))
+              IF o.present THEN HasB(st, o.b) /\ Live(Stack(st, o.b, o.k)) /\ Cur(Stack(st, o.b, o.k)).body = o.body
+              ELSE IF HasB(st, o.b) THEN ~Live(Stack(st, o.b, o.k)) ELSE TRUE
          /\ \A b \in DOMAIN st.bk : \A k \in LiveKeys(st, b) :
               \E i \in 1..Len(Ev.objs) : Ev.objs[i].b = b /\ Ev.objs[i].k = k /\ Ev.objs[i].present
          /\ l' = l + 1 /\ UNCHANGED <<st, cfg, pend>>
